@@ -21,7 +21,8 @@ HtypLenOk(e) == LET d == HtypDec(e.b)  r == e.res IN
 MsinOk(e) == LET d == MsinDec(e.b)  r == e.res IN
   /\ r.v = "ok" /\ r.mt = d.mt                                   \* message type and sub-type the layout prescribes
   /\ r.reenc_mt + B(d.verb) = e.b                                \* u8::from(&MessageType) | verbose bit
-  /\ r.pv = "msg" /\ r.verb = d.verb /\ r.pmt = d.mt /\ r.reenc = e.b     \* through the parser and the writer
+  /\ r.pv = "msg" => (r.verb = d.verb /\ r.pmt = d.mt /\ r.reenc = e.b)   \* through the parser and the writer: IF the parser returns a message
+                                                                       \* (whether it accepts the canonical message around the byte is C02's subject)
 TiOk(e) == LET r == e.res IN
   /\ r.v # "panic" /\ e.second # "panic"                           \* decoding either refuses or yields a description
   /\ ~Accepts(e.w) => e.second # "msg"                             \* a refused word is refused wherever it stands in a message
@@ -36,7 +37,9 @@ ViaParser(raw, be) == LET w == IF be THEN raw ELSE Rev(raw)  d == TiDec(w) IN
                       IF d = None THEN [v |-> "refused"] ELSE [v |-> "ok", desc |-> d[1]]
 \* the parser's refusal of a word can also come from its payload (40 zero bytes follow: enough for every fixed-size kind; a
 \* string / raw length of 0; names of length 0), so an accepted word always yields a message
-TiPairOk(e) == e.a = ViaParser(e.raw, e.first_be) /\ e.b = ViaParser(e.raw, ~e.first_be)
+\* (that the parser accepts the message around an accepted word is C02's subject: a refusal is left alone, a description must be the word's)
+PairLeg(got, want) == IF want.v = "ok" THEN got.v = "refused" \/ got = want ELSE got.v = "refused"
+TiPairOk(e) == PairLeg(e.a, ViaParser(e.raw, e.first_be)) /\ PairLeg(e.b, ViaParser(e.raw, ~e.first_be))
 \* ---- beyond the listed properties (./check extras)
 SvcOk(e) == e.res = ServiceName(e.id)
 CtlOk(e) == LET c == ControlOf(e.n) IN e.res.kind = c[1] /\ e.res.value = c[2] /\ e.res.back = e.n
